@@ -121,8 +121,21 @@ func BodyEventPrior(text string, desc interface{}, prior int) rec.Event {
 				}
 			}
 		}
-		if err := m.SetBody(text); err != nil {
-			ev["err"], ev["errtext"] = true, err.Error()
+		// every third text goes through SetBodyWithCharset with another charset name: whatever the message then declares,
+		// its own Body() accessor must give the text back
+		charset := ""
+		if prior == 0 && len(text)%3 == 1 {
+			charset = []string{"UTF-8", "ISO-8859-15", "iso-8859-1"}[len(text)%9/3]
+		}
+		ev["charset"] = charset
+		var serr error
+		if charset != "" {
+			serr = m.SetBodyWithCharset(charset, text)
+		} else {
+			serr = m.SetBody(text)
+		}
+		if serr != nil {
+			ev["err"], ev["errtext"] = true, serr.Error()
 			return
 		}
 		raw, err := m.Bytes()
@@ -172,6 +185,16 @@ func BodyEventPrior(text string, desc interface{}, prior int) rec.Event {
 		got, err := m.Body()
 		gl, ok2 := latin1(got)
 		ev["bodyAccessor"] = err == nil && ok2 && bytes.Equal(gl, stored)
+		if charset != "" {
+			// judged through the message's own declaration: the accessor returns the text (apart from CR / LF)
+			strip := func(s string) string { return strings.NewReplacer("\r", "", "\n", "").Replace(s) }
+			same := err == nil && strip(got) == strip(text)
+			ev["textPreserved"] = ev["textPreserved"].(bool) || same
+			ev["bodyAccessor"] = same
+			if !same {
+				ev["textPreserved"] = false
+			}
+		}
 	}()
 	return ev
 }
